@@ -1,78 +1,14 @@
 ----------------------------- MODULE WangLandau -----------------------------
 (***************************************************************************)
-(* The normal Wang-Landau loop over kappa bins as a state machine.         *)
-(*                                                                         *)
-(* ln f is 2^-k exactly (f starts at e and is square-rooted), so g is kept *)
-(* in integer units of 2^-KMax: one counted step adds Unit(k) = 2^(KMax-k).*)
-(* cfg (constant along a behaviour) = [nb, rmin, rmax, nbt, nflat, kmax,   *)
-(* fnum, fden, conv]: bins 0..nb-1, window rmin..rmax of nbt bins, flat    *)
-(* check every nflat steps, flatness criterion fnum/fden, convergence      *)
-(* threshold conv = floor(ln(convergence) * 2^kmax) in units.              *)
-(* The proposal's bin and the accept decision are parameters: the random   *)
-(* choices (model checking: every allowed choice; trace validation: the    *)
-(* logged ones).                                                           *)
+(* The normal Wang-Landau loop over kappa bins (C18): the state machine of *)
+(* module WLCore together with recursive definitions of its two arithmetic *)
+(* parameters.  Every TLC configuration over this module substitutes       *)
+(*     Pow2N <- Pow2NRec     SumOver <- SumOverRec                         *)
+(* (ProofsWL reasons about WLCore for arbitrary bins and run lengths).     *)
 (***************************************************************************)
-EXTENDS Integers, Sequences, FiniteSets
-VARIABLES cfg, bin, g, H, k, nstep, phase, gprev
-wlvars == <<cfg, bin, g, H, k, nstep, phase, gprev>>
-
-RECURSIVE Pow2N(_)
-Pow2N(n) == IF n = 0 THEN 1 ELSE 2 * Pow2N(n - 1)
-Unit(j) == Pow2N(cfg.kmax - j)
-Bins == 0..(cfg.nb - 1)
-Window == cfg.rmin..cfg.rmax
-Inside(b) == b \in Window
-Zeros == [b \in Bins |-> 0]
-Running == Unit(k) > cfg.conv                 \* f > convergence
-\* ln of the acceptance probability min(1, exp(g_old - g_new)), in units (<= 0)
-LnP(old, new) == IF g[old] - g[new] < 0 THEN g[old] - g[new] ELSE 0
-RECURSIVE SumOver(_,_)
-SumOver(f, S) == IF S = {} THEN 0 ELSE LET x == CHOOSE x \in S : TRUE IN f[x] + SumOver(f, S \ {x})
-\* every bin of the window holds at least fnum/fden of the mean count:  H[b] * nbt * fden >= fnum * sum
-BinFlat(b) == SumOver(H, Window) > 0 /\ H[b] * cfg.nbt * cfg.fden >= cfg.fnum * SumOver(H, Window)
-AllFlat == \A b \in Window : BinFlat(b)
-NumFlat == Cardinality({b \in Window : BinFlat(b)})
-
-WLInit(c, b0) == /\ cfg = c /\ bin = b0 /\ g = [b \in 0..(c.nb - 1) |-> 0] /\ H = [b \in 0..(c.nb - 1) |-> 0]
-                 /\ k = 0 /\ nstep = 0 /\ phase = "step" /\ gprev = [b \in 0..(c.nb - 1) |-> 0]
-
-\* the same as a next-state assignment (used by the trace specification when the init event arrives)
-WLSet(c, b0) == /\ cfg' = c /\ bin' = b0 /\ g' = [b \in 0..(c.nb - 1) |-> 0] /\ H' = [b \in 0..(c.nb - 1) |-> 0]
-                /\ k' = 0 /\ nstep' = 0 /\ phase' = "step" /\ gprev' = [b \in 0..(c.nb - 1) |-> 0]
-
-\* one Monte Carlo step: proposal in bin nbin, decision acc
-WLStep(nbin, acc) ==
-  /\ phase = "step" /\ Running /\ nbin \in Bins
-  /\ LET skip == ~Inside(nbin) IN
-     /\ skip => ~acc                                     \* never moves outside the requested range
-     /\ (~skip /\ LnP(bin, nbin) = 0) => acc             \* probability 1
-     /\ bin' = IF acc THEN nbin ELSE bin
-     /\ IF skip THEN g' = g /\ H' = H                    \* a skipped step is not counted
-        ELSE g' = [g EXCEPT ![bin'] = @ + Unit(k)] /\ H' = [H EXCEPT ![bin'] = @ + 1]
-  /\ nstep' = nstep + 1
-  /\ phase' = IF (nstep + 1) % cfg.nflat = 0 THEN "flat" ELSE "step"
-  /\ UNCHANGED <<cfg, k, gprev>>
-\* the scheduled flatness check
-FlatCheck ==
-  /\ phase = "flat"
-  /\ IF AllFlat THEN /\ k' = k + 1 /\ H' = Zeros /\ gprev' = g
-                     /\ phase' = IF Pow2N(cfg.kmax - (k + 1)) > cfg.conv THEN "step" ELSE "done"
-     ELSE k' = k /\ H' = H /\ gprev' = gprev /\ phase' = "step"
-  /\ nstep' = 0
-  /\ UNCHANGED <<cfg, bin, g>>
-WLNext == (\E nbin \in Bins, acc \in BOOLEAN : WLStep(nbin, acc)) \/ FlatCheck
-
-(***************************************************************************)
-(* properties (C18)                                                        *)
-(***************************************************************************)
-NeverLeavesWindow == [][Inside(bin) => Inside(bin')]_wlvars
-CountRule == [][phase = "step" =>
-                  \/ g' = g /\ H' = H
-                  \/ /\ g' = [g EXCEPT ![bin'] = @ + Unit(k)] /\ H' = [H EXCEPT ![bin'] = @ + 1]]_wlvars
-FlatRule == [][k' # k => (phase = "flat" /\ AllFlat /\ k' = k + 1 /\ H' = Zeros)]_wlvars
-NoEarlyReset == [][(phase = "flat" /\ ~AllFlat) => (k' = k /\ H' = H)]_wlvars
-GIncrement == \A b \in Bins : g[b] - gprev[b] = H[b] * Unit(k)        \* per-iteration g increments = ln f * histogram
-StopRule == (phase = "done") => ~Running
-ScheduleRule == [][(phase = "step" /\ phase' = "flat") <=> (phase = "step" /\ nstep' % cfg.nflat = 0 /\ nstep' > 0)]_wlvars
-KBounded == k \in 0..cfg.kmax
+EXTENDS WLCore
+RECURSIVE Pow2NRec(_)
+Pow2NRec(n) == IF n <= 0 THEN 1 ELSE 2 * Pow2NRec(n - 1)
+RECURSIVE SumOverRec(_,_)
+SumOverRec(f, S) == IF S = {} THEN 0 ELSE LET x == CHOOSE x \in S : TRUE IN f[x] + SumOverRec(f, S \ {x})
 =============================================================================
